@@ -226,15 +226,24 @@ class SchemaBuilder(
             # ignore_first_ref can only concern the mapping itself, not its values
             self._ignore_first_ref = False
             value = self.visit(value_type)
+        # keys which don't match their type (enum, literal, length) are rejected by the
+        # deserialization
+        names = {k: key[k] for k in ("enum", "const", "minLength", "maxLength") if k in key}
+        property_names = JsonSchema(type=JsonType.STRING, **names) if names else None
         if "pattern" in key:
             # keys which don't match the pattern are rejected by the deserialization
             return json_schema(
                 type=JsonType.OBJECT,
                 patternProperties={key["pattern"]: value},
                 additionalProperties=False,
+                propertyNames=property_names,
             )
         else:
-            return json_schema(type=JsonType.OBJECT, additionalProperties=value)
+            return json_schema(
+                type=JsonType.OBJECT,
+                additionalProperties=value,
+                propertyNames=property_names,
+            )
 
     def visit_field(
         self, tp: AnyType, field: ObjectField, required: bool = True
